@@ -42,3 +42,4 @@ CFG = {'level': 'exploration',
                  'requested lists have distinct paths and valid versions']}
 CFG['level_text'] += ' A quarter of the go.mod rounds first change the go version on the same structure (AddGoStmt across and around 1.21, including pre-release versions); block order is judged by the version the file then declares.'
 CFG['level_text'] += ' Half of the multi-round cases continue on the structure of the previous round instead of re-parsing its output.'
+CFG['level_text'] += ' Use directories and replacement targets include paths ending in `//`.'
